@@ -4,7 +4,7 @@
 The prompt contains the property's text only — nothing from /verif."""
 import json, subprocess, sys
 tag, ids = sys.argv[1], sys.argv[2:]
-structure_preserving = tag.startswith('e')
+structure_preserving = tag[0] in 'ef'
 props = {json.loads(l)['id']: json.loads(l) for l in open('/verif/properties.jsonl')}
 base = '''You are helping to evaluate a verification tool by producing a realistic regression for a Go project. Work ONLY inside the scratch git worktree {wt} (a checkout of the project goblimey/go-ntrip: a Go library and small applications that frame, CRC-check and decode RTCM3 GNSS messages from NTRIP byte streams). Do not read, list or touch /verif or /repo, and do not look at any other /tmp/wt-* directory; everything you need is in {wt}.
 
